@@ -33,6 +33,35 @@ unsigned long c06_sz = sizeof(struct context_data) + sizeof(struct channel_data)
   + sizeof(struct midi_macro_data);
 """
 
+CONSTS = ["XMP_STATE_UNLOADED", "XMP_STATE_LOADED", "XMP_STATE_PLAYING", "SMIX_NUMVOC", "DEFAULT_AMPLIFY", "DEFAULT_MIX",
+          "XMP_INTERP_LINEAR", "XMP_DSP_LOWPASS", "C4_PAL_RATE", "QUIRK_VIRTUAL", "FLOW_MODE_GENERIC", "READ_EVENT_MOD",
+          "PERIOD_AMIGA", "XMP_MODE_AUTO", "XMP_CHANNEL_MUTE", "XMP_MAX_CHANNELS", "XMP_MAX_MOD_LENGTH", "MAX_SAMPLES",
+          "XMP_MIN_BPM", "XMP_MIN_SRATE", "XMP_MAX_SRATE", "MAX_SEQUENCES"]
+FCONSTS = ["PAL_RATE", "DEFAULT_TIME_FACTOR"]      # doubles, emitted in 1/1000 units
+
+
+def constants():
+    """Values of the macros the model mentions, by compiling and running a probe against the real headers."""
+    src = os.path.join(vlib.OUT, "c06_const_probe.c")
+    exe = os.path.join(vlib.OUT, "c06_const_probe")
+    body = ['#include <stdio.h>', '#include "common.h"', '#include "player.h"', '#include "mixer.h"', '#include "virtual.h"',
+            'int main(void){']
+    for c in CONSTS:
+        body.append('printf("%s %%lld\\n", (long long)(%s));' % (c, c))
+    for c in FCONSTS:
+        body.append('printf("%s %%lld\\n", (long long)((%s) * 1000.0 + 0.5));' % (c, c))
+    body.append('return 0;}')
+    open(src, "w").write("\n".join(body) + "\n")
+    rc, out = vlib.sh(["clang-14", "-DHAVE_CONFIG_H=0", "-D" + vlib.GUARD, "-I" + os.path.join(vlib.REPO, "include"),
+                       "-I" + os.path.join(vlib.REPO, "src"), src, "-o", exe])
+    if rc != 0:
+        raise vlib.InfraError("constant probe failed to compile:\n" + out[-2000:])
+    rc, out = vlib.sh([exe])
+    if rc != 0:
+        raise vlib.InfraError("constant probe failed")
+    return [tuple(l.split()) for l in out.splitlines() if l.strip()]
+
+
 INT_TYPES = {
     "int": ("int", 4), "unsigned int": ("uint", 4), "unsigned": ("uint", 4), "int32": ("int", 4), "uint32": ("uint", 4),
     "short": ("int", 2), "unsigned short": ("uint", 2), "int16": ("int", 2), "uint16": ("uint", 2),
@@ -184,6 +213,12 @@ def generate():
     L.append("def mixerVoice : List (String × Bool) := [")
     L.append(",\n".join("  (\"%s\", %s)" % (l["path"], "true" if l["kind"] == "ptr" else "false") for l in vox))
     L.append("]")
+    L.append("")
+    L.append("-- macro values of the working tree headers (doubles in 1/1000 units)")
+    L.append("namespace K")
+    for (k, v) in constants():
+        L.append("def %s : Int := %s" % (k, v))
+    L.append("end K")
     L.append("")
     L.append("end Xmp.Gen.CtxFields")
     lean_changed = vlib.write_if_changed(os.path.join(vlib.LEAN, "XmpModel", "Gen", "CtxFields.lean"), "\n".join(L) + "\n")
